@@ -111,6 +111,7 @@ def run_wait(cases):
         if late_end:
             late_end()
         nsys = len(w.log)
+        w.waitpid_n, w.eintr_at = 0, set(ret.get("eintr", ()))
 
         def call():
             if proc is not None:
@@ -127,6 +128,7 @@ def run_wait(cases):
             got = {"kind": "ValueError"}
         except Exception as ex:  # noqa: BLE001
             got = {"kind": repr(ex)[:60]}
+        w.eintr_at = set()
         at = w.mono - t0
         syscalls = len(w.log) - nsys
         sl = [d for (_, d) in w.sleep_log]
@@ -278,7 +280,7 @@ def check_wait_procs(ctx, n):
         ctx.sample({"kind": "wait_procs execution", "record": lines[0]})
 
 
-def judge_wait(ctx, cases):
+def judge_wait(ctx, cases, name="wait-configurations"):
     chunks = [cases[i:i + 60] for i in range(0, len(cases), 60)]
     res = forkpool.map_fork(run_wait, chunks)
     recs, devs = [], 0
@@ -302,12 +304,12 @@ def judge_wait(ctx, cases):
     cfg = os.path.join(d, "t.cfg")
     tlc.write_cfg(cfg, {"Cap": CAP * U, "First": 2 * U}, invariants=["Accepted"])
     r = tlc.run("WaitTrace", cfg, workers=1, env={"TRACE_FILE": tf}, timeout=1500)
-    ctx.tlc("wait-trace-validation", r)
+    ctx.tlc(name + "-trace-validation", r)
     shutil.rmtree(d, ignore_errors=True)
     if r.violated or r.distinct < len(recs):
         raise core.Machinery("wait trace validation did not complete: %s" % r.violated)
     ctx.cov["traces_validated_against_impl"] += len(recs)
-    ctx.cov.setdefault("replay", {})["wait-configurations"] = {"executions": len(recs),
+    ctx.cov.setdefault("replay", {})[name] = {"executions": len(recs),
                                                                "deviating_from_reference_schedule": devs}
     for r0 in recs:
         ctx.case(json.dumps(r0, sort_keys=True))
@@ -336,7 +338,7 @@ def check(ctx):
                        "virtual time, plus seeded wait_procs executions; distinct = distinct configurations / executions")
     ctx.assumptions += [
         "time advances only inside sleep(); exit instants and deadlines sit on odd half-units (0.05 ms) so that no float rounding tie decides a comparison, except timeout=0",
-        "os.waitpid retries EINTR itself (PEP 475), so the simulated waitpid never surfaces InterruptedError",
+        "EINTR reaches wait_pid() only for a child that is still running (a waitpid that has a status to report returns it); CPython itself retries EINTR (PEP 475), so this is the legacy path kept in wait_pid()",
         "wait status words are taken from real children of the harness",
         "wait_procs: only the clauses of the statement are demanded (partition, really ended, returncode, callback once, back by timeout + 40 ms)",
     ]
@@ -365,6 +367,13 @@ def check(ctx):
     if need - kinds:
         core.vacuity("outcome classes never enumerated: %s" % sorted(need - kinds))
     judge_wait(ctx, cases)
+    # ... and with a signal interrupting the 1st, 2nd, 1st+2nd or 3rd waitpid() of a child that is
+    # still running (EINTR is a poll that learnt nothing: every clause of the contract stands)
+    ei = [(dict(c0, eintr=list(ks)), None) for c0, _ in cases if c0["cfg"]["kind"] == "child"
+          for ks in ((1,), (2,), (1, 2), (3,))]
+    if not thorough:
+        ei = ei[::3]
+    judge_wait(ctx, ei, name="wait-eintr")
     check_wait_procs(ctx, 20000 if thorough else 2500)
     check_popen_live(ctx)
     if thorough:
